@@ -254,7 +254,7 @@ func (vc *FuncVC) lookupIdent(env *Env, name string) *CVal {
 	if p := vc.knownPkg(name); p != nil {
 		return &CVal{Pkg: p}
 	}
-	if env.goal && !env.callee && len(vc.debugRefs[name]) > 0 {
+	if (env.goal || env.results != nil) && !env.callee && len(vc.debugRefs[name]) > 0 {
 		// a local variable of the function that does not exist (yet) at this point: in a
 		// formula to be proved it is left unconstrained, which can only make the proof harder
 		d := vc.debugRefs[name][0]
@@ -1135,9 +1135,7 @@ func (vc *FuncVC) evalCall(env *Env, x *ECall) *CVal {
 			// the site comes later in the function: no path to this point has executed it.
 			// In a formula to be proved its heap is left unconstrained (which can only make
 			// the proof harder); elsewhere this is an error.
-			if !env.goal {
-				panic(fmt.Errorf("%s(%s, …): the call site has not been executed before this point", name, id.Name))
-			}
+			// (the same unconstrained heap is used when the proved formula is assumed afterwards)
 			if vc.neverState == nil {
 				vc.neverState = vc.newState(stHavoc, vc.entryState)
 				vc.neverState.havocTotal = true
